@@ -45,6 +45,8 @@ pub struct SavedOutput {
 #[derive(Default)]
 pub struct HookState {
 	pub now_ms: i64,
+	/// simulated time that passed (forward moves of the clock only)
+	pub elapsed_ms: i64,
 	pub fault: Option<Fault>,
 	pub fault_fired: bool,
 	/// visits per point name inside the current operation
@@ -104,6 +106,12 @@ pub fn set_now_ms(v: i64) {
 pub fn advance_ms(d: i64) {
 	let mut st = HOOKS.st.lock().unwrap();
 	st.now_ms += d;
+	if d > 0 {
+		st.elapsed_ms += d;
+	}
+}
+pub fn elapsed_ms() -> i64 {
+	HOOKS.st.lock().unwrap().elapsed_ms
 }
 pub fn now_dt() -> DateTime<Utc> {
 	let ms = now_ms();
